@@ -327,6 +327,11 @@ impl TestSignerFactory for RecFactory {
 /// Install the recording signer factory (process-wide; the recorders themselves are thread-local).
 pub fn install_recording_signer() {
 	SIGNER_FACTORY.set(Arc::new(RecFactory));
+	// Every netsim check calls this first. One library debug assertion is reachable from the harness's own
+	// `list_channels` calls in honest operation and is an observation, not a verdict (DESIGN.md §9.3): the
+	// balance predictor includes the peer's not yet committed HTLCs and reports an overdraft although every
+	// commitment actually signed is sound; release builds report zero limits instead of panicking.
+	vcore::tolerate_panic("some channel balance has been overdrawn", "obs:list_channels-overdrawn-debug-assert");
 }
 
 // -------------------------------------------------------------------------------------------------
